@@ -19,9 +19,24 @@ def sh(cmd, cwd=None, timeout=3600):
     p = subprocess.run(cmd, shell=True, cwd=cwd, env=ENV, capture_output=True, text=True, timeout=timeout)
     return p.returncode, (p.stdout + p.stderr)
 
-def run_checks(patch, checks, tiers=("quick", "thorough")):
-    """apply to /repo, run, undo; returns {check: {tier, fired, first_lines}}"""
+def run_checks(patch, checks, tiers=("quick", "thorough"), worktree=None):
+    """apply to /repo, run, undo; returns {check: {tier, fired, first_lines}}.
+    With worktree (a checkout = /repo HEAD + the patch) the checks are pointed at it instead (VERIF_REPO) and /repo is left alone:
+    used while another run needs /repo unchanged."""
     out = {}
+    if worktree:
+        env = dict(ENV); env["VERIF_REPO"] = worktree
+        for c in checks:
+            for tier in tiers:
+                p = subprocess.run(f"./run.sh {c} {tier}", shell=True, cwd="/verif", env=env, capture_output=True, text=True, timeout=5400)
+                rc, o = p.returncode, p.stdout + p.stderr
+                lines = [l for l in o.splitlines() if l.startswith(c + " tier") or l.startswith("VIOLATION") or l.startswith("  signature")]
+                fired = rc == 1 and any(l.startswith("VIOLATION") for l in lines)
+                sigs = sorted(set(l.strip() for l in lines if l.startswith("  signature")))[:6]
+                out[c] = {"tier": tier, "fired": fired, "exit": rc, "summary": next((l for l in lines if l.startswith(c + " tier")), ""), "signatures": sigs}
+                if fired or rc not in (0, 1):
+                    break
+        return out
     rc, o = sh(f"git -C /repo status --porcelain")
     assert o.strip() == "", "/repo working tree is not clean: " + o
     rc, o = sh(f"git -C /repo apply {patch}")
@@ -66,7 +81,8 @@ def add(name, prop, wt, demo, needs, extra_checks=()):
     # 2. touched packages' own tests with the change (demo test excluded by -skip when it is a go test)
     rc_pk, o_pk = sh("go build ./... && go test -vet=off -count=1 -skip 'Seed|seed' " + " ".join(pkgs), cwd=wt, timeout=3000)
     checks = [prop] + [c for c in extra_checks if c != prop]
-    res = run_checks(patch, checks)
+    via = os.environ.get("SEED_VIA_WORKTREE") == "1"
+    res = run_checks(patch, checks, worktree=wt if via else None)
     meta = {
         "name": name, "breaks_property": prop, "needs_to_manifest": needs,
         "patch_touches": touched,
@@ -75,7 +91,8 @@ def add(name, prop, wt, demo, needs, extra_checks=()):
         "existing_tests_of_touched_packages_with_change": {"packages": pkgs, "exit": rc_pk, "tail": o_pk[-300:]},
         "checks_run": res,
         "caught_by": [c for c, r in res.items() if r["fired"]],
-        "how_run": "patch applied to /repo (git apply), ./run.sh <check> quick (thorough if quick was silent), then git checkout -- .",
+        "how_run": ("checks pointed at the author's worktree (= /repo HEAD + patch) with VERIF_REPO, /repo untouched" if via else
+                    "patch applied to /repo (git apply), ./run.sh <check> quick (thorough if quick was silent), then git checkout -- ."),
     }
     json.dump(meta, open(os.path.join(dst, "meta.json"), "w"), indent=1)
     print(json.dumps({k: meta[k] for k in ("name", "caught_by")}), "demo confirmed:", meta["demonstration"]["confirmed"], "pkg tests exit:", rc_pk)
